@@ -63,6 +63,9 @@ type Exec struct {
 
 	stackDepth int
 	curFrame   *frame
+
+	nativesSeen map[string]bool
+	bounds      map[string]int
 }
 
 type methKey struct {
